@@ -74,6 +74,11 @@ func VfC15Sync() {
 	rcv.prioSeqHandler.highest = vf.U32()
 	rcv.prioSeqHandler.bitMap = vf.U64()
 	snd.prioSeqHandler.outSeq.Store(vf.U32())
+	// part of the receiver state: the next in key may already have been derived (an earlier
+	// frame - authentic or not - announced the rollover); if so it is the successor of the in key
+	if vf.Bool() {
+		rcv.nextInKey, rcv.nextInCipher, _ = vfRolloverKey(rcv.inKey)
+	}
 	seq, _, _, c, err := snd.Out(false)
 	vf.Assert(err == nil, "out-failed")
 	ci, err := rcv.In(seq, false)
@@ -82,6 +87,13 @@ func VfC15Sync() {
 	vf.Assert(rcv.Check(seq, false) == nil, "in-order-frame-rejected")
 	vf.Assert(rcv.reglSeqHandler.highest == snd.reglSeqHandler.outSeq.Load(), "invariant-highest")
 	vf.Assert(len(rcv.inKey) == 1 && len(snd.outKey) == 1 && rcv.inKey[0] == snd.outKey[0], "invariant-keys")
+	// the pending-next-key part of the invariant is re-established (this is what makes the
+	// single step an induction over ANY number of wraps): nothing pending, or the successor
+	// of the CURRENT in key
+	vf.Assert((rcv.nextInKey == nil) == (rcv.nextInCipher == nil), "invariant-pending-next-key-half-set")
+	if rcv.nextInCipher != nil {
+		vf.Assert(len(rcv.nextInKey) == 1 && rcv.nextInKey[0] == rcv.inKey[0]+100 && vfKeyID(rcv.nextInCipher) == int(rcv.inKey[0])+100, "invariant-pending-next-key-is-not-the-successor")
+	}
 	if n == 0xFFFFFFFF {
 		// both ends restart the priority sequence with the new key
 		vf.Assert(snd.prioSeqHandler.outSeq.Load() == 0, "sender-priority-counter-not-reset")
@@ -98,6 +110,21 @@ func VfC15Sync() {
 		co, err := rcv.In(old, false)
 		vf.Assert(err == nil && vfKeyID(co) == 102, "old-epoch-frame-offered-old-key")
 		vf.Assert(rcv.reglSeqHandler.highest == h && rcv.reglSeqHandler.bitMap == bm, "old-epoch-frame-moved-window")
+		// ... and the NEXT wrap of the same session (2^32 in-order frames later) works again:
+		// sender and receiver move to the same third key, and a recorded frame of the second
+		// epoch with a small number is not offered the key it was sealed with
+		snd.reglSeqHandler.outSeq.Store(0xFFFFFFFF)
+		rcv.reglSeqHandler.highest = 0xFFFFFFFF
+		rcv.reglSeqHandler.bitMap = vf.U64()
+		small := vf.U32()
+		vf.Assume(small >= 1 && small <= 255)
+		cr, rerr := rcv.In(small, false)
+		vf.Assert(rerr == nil && vfKeyID(cr) != int(rcv.inKey[0]), "recorded-frame-of-this-epoch-offered-its-own-key-in-the-rollover-window")
+		seq2, _, _, c2, err2 := snd.Out(false)
+		ci2, ierr2 := rcv.In(seq2, false)
+		vf.Assert(err2 == nil && ierr2 == nil && vfKeyID(ci2) == vfKeyID(c2), "second-wrap-receiver-key-differs-from-sender-key")
+		vf.Assert(rcv.Check(seq2, false) == nil, "second-wrap-frame-rejected")
+		vf.Assert(rcv.inKey[0] == snd.outKey[0], "second-wrap-keys-differ")
 		vf.Reach("wrap")
 	} else {
 		vf.Reach("no-wrap")
